@@ -16,7 +16,15 @@ def validate_encoded(string):
       "(it does not match the regular expression ([0-9A-F][0-9A-F])+)")
 
 def validate_decoded(byte_array):
-  return byte_array.validate()
+  if isinstance(byte_array, gfapy.ByteArray):
+    return byte_array.validate()
+  elif isinstance(byte_array, (list, bytes, bytearray)):
+    return gfapy.ByteArray(byte_array).validate()
+  else:
+    raise gfapy.TypeError(
+      "the class {} is incompatible with the datatype\n"
+      .format(byte_array.__class__.__name__)+
+      "(accepted classes: str, list, gfapy.ByteArray)")
 
 def unsafe_encode(obj):
   if isinstance(obj, gfapy.ByteArray):
